@@ -391,6 +391,23 @@ func GenE2(prop string, seed uint64) *Program {
 		}
 	}
 	switch scenario {
+	case "lin", "rmw", "lin-rw", "lin-tomb", "lin-xattr", "casrace", "subdoc-distinct", "subdoc-mixed", "feeds", "rev-race", "insert-race":
+		// separate fault-injecting configuration of the concurrent runs
+		if r.Chance(20) {
+			for i := 0; i < 1+r.Intn(2); i++ { // some commit attempt of the run fails with BUSY and is retried
+				prog.Faults = append(prog.Faults, FaultSpec{Kind: 5, AtOp: 1 + r.Intn(8)})
+			}
+		}
+		if r.Chance(20) && len(prog.Tasks) > 0 {
+			for i := 0; i < 1+r.Intn(2); i++ { // one statement of some client operation fails
+				t := r.Intn(len(prog.Tasks))
+				if len(prog.Tasks[t]) > 0 {
+					prog.Faults = append(prog.Faults, FaultSpec{Kind: 6, AtOp: t*100 + r.Intn(len(prog.Tasks[t])), Offset: r.Intn(24)})
+				}
+			}
+		}
+	}
+	switch scenario {
 	case "backfill-race":
 		g.setupDocs(prog, 60)
 		prog.NoLin = false
